@@ -81,6 +81,36 @@ def gotoState (r : Int) (st0 : Int) : Int :=
     let c := get yyAct j
     if get yyChk c != -nt then get yyAct g else c
 
+/-- `if yyrcvr.char < 0 { yyrcvr.char, yytoken = yylex1(yylex, &yyrcvr.lval) }`: read the
+    look-ahead unless there is one -/
+def ensureLook {σ τ : Type} (src : Source σ τ) (look : Option (Int × τ)) (s : σ) : (Int × τ) × σ :=
+  match look with
+  | some lk => (lk, s)
+  | none => let r := src.next s; ((r.1, r.2.1), r.2.2)
+
+/-- `yynewstate`: the shift attempt in `state`.  Result: look-ahead afterwards, token source
+    afterwards, and the state to shift to (none = go to `yydefault`).  A simple state
+    (`yyPact[state] <= yyFlag`) does not read a look-ahead. -/
+def shiftOf {σ τ : Type} (src : Source σ τ) (state : Int) (look : Option (Int × τ)) (s : σ) :
+    Option (Int × τ) × σ × Option Int :=
+  let yyn := get yyPact state
+  if yyn ≤ yyFlag then (look, s, none) else
+    let ls := ensureLook src look s
+    let j := yyn + ls.1.1
+    if j < 0 || j ≥ yyLast then (some ls.1, ls.2, none) else
+      let n := get yyAct j
+      if get yyChk n == ls.1.1 then (some ls.1, ls.2, some n) else (some ls.1, ls.2, none)
+
+/-- `yydefault`: the default action of `state` (`-2` = consult the exception table, which needs
+    the look-ahead).  Result: look-ahead, token source, action (none = no table entry). -/
+def defaultOf {σ τ : Type} (src : Source σ τ) (state : Int) (look : Option (Int × τ)) (s : σ) :
+    Option (Int × τ) × σ × Option Int :=
+  let d := get yyDef state
+  if d == -2 then
+    let ls := ensureLook src look s
+    (some ls.1, ls.2, excaFind yyExca state ls.1.1)
+  else (look, s, some d)
+
 /-- the driver; `stack` head = top, each entry (state, tree); `look` = the look-ahead if read -/
 def run {σ τ : Type} (src : Source σ τ) : Nat → List (Int × PT τ) → Option (Int × τ) → σ → Outcome σ τ
   | 0, _, _, _ => .stuck
@@ -88,43 +118,21 @@ def run {σ τ : Type} (src : Source σ τ) : Nat → List (Int × PT τ) → Op
     match stack with
     | [] => .stuck
     | (state, top) :: _ =>
-      let yyn := get yyPact state
-      -- yynewstate: try to shift
-      let (look, s, shift) : Option (Int × τ) × σ × Option (Int × τ) :=
-        if yyn ≤ yyFlag then (look, s, none) else
-          let (lk, s') : (Int × τ) × σ := match look with
-            | some lk => (lk, s)
-            | none => let (t, v, s') := src.next s; ((t, v), s')
-          let j := yyn + lk.1
-          if j < 0 || j ≥ yyLast then (some lk, s', none) else
-            let n := get yyAct j
-            if get yyChk n == lk.1 then (some lk, s', some (n, lk.2)) else (some lk, s', none)
-      match shift, look with
-      | some (n, v), some lk => run src fuel ((n, .tok lk.1 v) :: stack) none s
-      | some _, none => .stuck
-      | none, _ =>
-        -- yydefault
-        let d := get yyDef state
-        let (look, s, act) : Option (Int × τ) × σ × Option Int :=
-          if d == -2 then
-            let (lk, s') : (Int × τ) × σ := match look with
-              | some lk => (lk, s)
-              | none => let (t, v, s') := src.next s; ((t, v), s')
-            (some lk, s', excaFind yyExca state lk.1)
-          else (look, s, some d)
-        match act with
-        | none => .stuck
-        | some r =>
-          if r < 0 then .accept top s
-          else if r == 0 then .reject state (match look with | some lk => lk.1 | none => -1) s
+      match shiftOf src state look s with
+      | (some lk, s1, some n) => run src fuel ((n, .tok lk.1 lk.2) :: stack) none s1
+      | (none, _, some _) => .stuck
+      | (look1, s1, none) =>
+        match defaultOf src state look1 s1 with
+        | (_, _, none) => .stuck
+        | (look2, s2, some r) =>
+          if r < 0 then .accept top s2
+          else if r == 0 then .reject state (match look2 with | some lk => lk.1 | none => -1) s2
           else
             match popN (get yyR2 r).toNat stack [] with
             | none => .stuck
-            | some (kids, rest) =>
-              match rest with
-              | [] => .stuck
-              | (st0, _) :: _ =>
-                run src fuel ((gotoState r st0, .node r.toNat kids) :: rest) look (src.onReduce r.toNat s)
+            | some (_, []) => .stuck
+            | some (kids, (st0, t0) :: rest) =>
+              run src fuel ((gotoState r st0, .node r.toNat kids) :: (st0, t0) :: rest) look2 (src.onReduce r.toNat s2)
 
 /-- initial call: state 0 on the stack -/
 def start {σ τ : Type} [Inhabited τ] (src : Source σ τ) (fuel : Nat) (s : σ) : Outcome σ τ :=
